@@ -1,8 +1,18 @@
-(* C09 driver: replays storageAppend cases on the extracted model.
-   prop_ok  : the stored value equals substrate_append (the predicate of theorem C09_append)
-   model_eq : the stored value equals go_append (the model of the repaired storageAppend).
-   On a property failure the detail says whether the pre-fix model (go_append_prefix, with the
-   zero-filling or the strict reader) reproduces the observed value. *)
+(* C09 driver: replays the cases of props/C09/harness_test.go on the extracted model.
+   append/absent/twice (storageAppend called directly):
+     prop_ok  : the stored value equals substrate_append (the predicate of theorem C09_append_cur)
+     model_eq : the stored value equals go_append_cur, the model of storageAppend over the model
+                dec_big_cur of the decodeBigInt now in the tree.
+     On a property failure the detail says whether the pre-fix model (go_append_prefix, with the
+     zero-filling or the strict reader) reproduces the observed value.
+   host (ext_storage_append_version_1 through a wazero memory):
+     prop_ok  : the whole storage after the call is spec_host_append of the storage before it, with
+                key and item being the bytes the spans denote (theorem C09_host); a span outside the
+                memory: panic and the storage unchanged; the guest memory is never written
+     model_eq : the same against host_append (the model of the host function)
+   dec (scale.Unmarshal into a big.Int pointer):
+     prop_ok  : dec_complete_on, the hypothesis of C09_append_any_decoder on this input
+     model_eq : the answer equals dec_big_cur. *)
 open Model
 open Vutil
 
@@ -34,15 +44,88 @@ let classify cur =
          then "big-beyond-u32" else "noncanonical" in
        m ^ "," ^ cls)
 
+(* did the extension change the width of the length prefix? (seeded defect C09-m2) *)
+let width_tag cur = if prefix_grows cur then ",prefix-grows" else ""
+
+let str_store (s : (byte list * byte list) list) =
+  (* two hex digits per byte: comparing the hex strings is comparing the keys byte-wise *)
+  let l = List.map (fun (k, v) -> ((if k = [] then "" else hex_of_bytes k), hex_of_bytes k, hex_of_bytes v)) s in
+  let l = List.sort (fun (a, _, _) (b, _, _) -> compare a b) l in
+  if l = [] then "()" else String.concat "," (List.map (fun (_, k, v) -> k ^ "=" ^ v) l)
+
+let other_key = bytes_of_hex "3a6f74686572"
+let other_val = bytes_of_hex "0411"
+
+(* the storage the harness prepares, following the harness's own rule *)
+let host_setup memsize base blob kspan cur =
+  let m = { m_size = memsize; m_base = base; m_data = blob } in
+  let st0 = (match mem_read m kspan with
+    | Ok key ->
+      let s = if key <> [] then st_put [] other_key other_val else [] in
+      (match cur with Some c -> st_put s key c | None -> s)
+    | _ -> []) in
+  (m, st0)
+
+let check_host f obs =
+  match f with
+  | [ms; base; blob; ks; vs; cur] ->
+    let memsize = n_of_hex ms and base = n_of_hex base and blob = bytes_of_hex blob in
+    let kspan = n_of_hex ks and vspan = n_of_hex vs in
+    let cur = if cur = "absent" then None else Some (bytes_of_hex cur) in
+    let (m, st0) = host_setup memsize base blob kspan cur in
+    let render st0 = function
+      | Ok st -> str_store st ^ " mem=1"
+      | _ -> "panic " ^ str_store st0 ^ " mem=1" in
+    let model = render st0 (host_append m kspan vspan st0) in
+    let spec = (match mem_read m kspan, mem_read m vspan with
+      | Ok key, Ok item -> str_store (spec_host_append st0 key item) ^ " mem=1"
+      | _ -> "panic " ^ str_store st0 ^ " mem=1") in
+    let ovl = (match mem_read m kspan, mem_read m vspan with
+      | Ok key, Ok item ->
+        let kp = int_of_n (span_ptr kspan) and vp = int_of_n (span_ptr vspan) in
+        let kn = List.length key and vn = List.length item in
+        (if key = [] then ",host-empty-key" else "") ^ (if item = [] then ",host-empty-item" else "")
+        ^ (if kn > 0 && vn > 0 && kp < vp + vn && vp < kp + kn then ",host-overlap" else "")
+        ^ (if kp + kn = int_of_n memsize || vp + vn = int_of_n memsize then ",host-at-end" else "")
+        ^ (match cur with None -> ",host-absent" | Some c -> "," ^ classify c)
+      | Ok _, _ -> ",host-value-span-out"
+      | _, _ -> ",host-key-span-out") in
+    { prop_ok = (obs = spec); model_eq = (obs = model); nontrivial = true; finding = "-";
+      tags = "host" ^ ovl;
+      detail = (if obs = spec && obs = model then "" else Printf.sprintf "spec=%s model=%s" spec model) }
+  | _ -> fail "C09: bad host input"
+
+let check_dec d obs =
+  let l = bytes_of_hex d in
+  let got = (if obs = "err" then Some None
+             else if String.length obs >= 3 && String.sub obs 0 3 = "ok:" then
+               (let h = String.sub obs 3 (String.length obs - 3) in
+                Some (Some (if h = "-" then N0 else n_of_hex h)))
+             else None) in
+  let model = dec_big_cur l in
+  let show_o = function None -> "err" | Some n -> "ok:" ^ hex_of_bytes (n_be_bytes n) in
+  (match got with
+   | None -> { prop_ok = false; model_eq = false; nontrivial = true; finding = "-"; tags = "dec";
+               detail = "unparsable observation " ^ obs }
+   | Some g ->
+     let canon = (match compact_u32_decode l with Some _ -> true | None -> false) in
+     { prop_ok = dec_complete_on l g; model_eq = (obs = show_o model); nontrivial = (l <> []); finding = "-";
+       tags = "dec," ^ (if canon then "dec-canonical-u32" else if model = None then "dec-rejected" else "dec-beyond-u32");
+       detail = (if obs = show_o model then "" else "model=" ^ show_o model) })
+
 let check inp obs =
   let f = split_ws inp in
+  match f with
+  | "host" :: rest -> check_host rest obs
+  | ["dec"; d] -> check_dec d obs
+  | _ ->
   let cur, items, kind = (match f with
     | ["append"; c; i] -> (bytes_of_hex c, [bytes_of_hex i], "append")
     | ["absent"; i] -> ([], [bytes_of_hex i], "absent")
     | ["twice"; c; i; j] -> (bytes_of_hex c, [bytes_of_hex i; bytes_of_hex j], "twice")
     | _ -> fail "C09: bad input %s" inp) in
   let spec = show (fold_out (fun c i -> Ok (substrate_append c i)) cur items) in
-  let model = show (fold_out (fun c i -> Ok (go_append false c i)) cur items) in
+  let model = show (fold_out (fun c i -> Ok (go_append_cur c i)) cur items) in
   let prop = (obs = spec) and eq = (obs = model) in
   let detail =
     if prop && eq then "" else begin
@@ -54,6 +137,20 @@ let check inp obs =
     end in
   let nontrivial = (cur <> []) in
   { prop_ok = prop; model_eq = eq; nontrivial; finding = "-";
-    tags = kind ^ "," ^ classify cur; detail }
+    tags = kind ^ "," ^ classify cur ^ width_tag cur; detail }
 
-let () = run_driver check
+(* vm_compute cross-check: the stored value / the decoded length recomputed inside Coq *)
+let coq inp obs =
+  match split_ws inp with
+  | ["append"; c; i] when obs <> "panic" && (String.length obs < 3 || String.sub obs 0 3 <> "err") ->
+    Some (Printf.sprintf "bytes_eqb (go_append_cur %s %s) %s && bytes_eqb (substrate_append %s %s) %s"
+            (coq_bytes (bytes_of_hex c)) (coq_bytes (bytes_of_hex i)) (coq_bytes (bytes_of_hex obs))
+            (coq_bytes (bytes_of_hex c)) (coq_bytes (bytes_of_hex i)) (coq_bytes (bytes_of_hex obs)))
+  | ["dec"; d] when obs = "err" ->
+    Some (Printf.sprintf "match dec_big_cur %s with None => true | Some _ => false end" (coq_bytes (bytes_of_hex d)))
+  | ["dec"; d] when String.length obs >= 3 && String.sub obs 0 3 = "ok:" ->
+    Some (Printf.sprintf "match dec_big_cur %s with None => false | Some n => bytes_eqb (n_be_bytes n) %s end"
+            (coq_bytes (bytes_of_hex d)) (coq_bytes (bytes_of_hex (String.sub obs 3 (String.length obs - 3)))))
+  | _ -> None
+
+let () = run_driver ~coq check
